@@ -4,6 +4,8 @@ set -e
 cd "$(dirname "$0")"
 export GOFLAGS=-mod=mod GOPROXY=off GOSUMDB=off GOTOOLCHAIN=local
 mkdir -p build evidence replays
+# the generated facts are a function of /repo: never trust the committed copies
+./check --regen
 (cd lean && lake build Ysgo ysgo-model)
 (cd harness && go build -tags verif -o ../build/harness .)
 (cd tools && go vet ./... >/dev/null 2>&1 || true)
